@@ -992,7 +992,7 @@ def run(tier, seed):
             if tier == "thorough"
             else "exact count of get_all_tokenizers() against the enumerator; history: the test sampler is used and the enumerated set looked at again (on a stubbed 300-element set in the quick tier, on the real set in the thorough tier); "
         )
-        + "a seeded uniform sample of 20,000 tokenizer configurations drawn from the enumerator plus one-element neighbours of 200 of them and the images of the legacy modes: "
+        + "a seeded uniform sample of 20,000 tokenizer configurations drawn from the enumerator plus one-element neighbours of 200 of them, the images of the legacy modes and THEIR one-element neighbours: "
         "is_valid, name / hash() / hash_int() pairwise distinct, equal for a rebuilt equal object, load(serialize(t)) == t with the same name, is_legacy_equivalent exactly for the "
         "images of the 3 legacy modes; 50 fixed tokenizers hashed in 3 interpreters with PYTHONHASHSEED 0/1/12345; ZANJ file round trip of 12; distinct by structure",
         exhaustive=(tier == "thorough"),
@@ -1028,6 +1028,10 @@ def run(tier, seed):
         sample = [spec_at(tp, i, True) for i in idx]
         seen_d = {digest(s) for s in sample}
         extra = list(legacy_structs().values()) + [struct_of(tp())]
+        # the one-element neighbours of the legacy images themselves (every alternative of the small element families, 40 of the large ones):
+        # "no other tokenizer reports itself legacy-equivalent" is most easily broken right next to them
+        for base in list(extra):
+            extra += neighbours(base, rng, per_field=40)
         for base in [sample[int(i)] for i in rng.choice(len(sample), size=200, replace=False)]:
             extra += neighbours(base, rng)
         for s in extra:
